@@ -6,7 +6,12 @@ instance directory again (Experiment.experimentFromInstance, what `elaunch.py --
 everything the property talks about from the live experiment and from both reloaded ones.
 
 A case (JSON-able):
-  kind 'conf': doc (FlowIR package dictionary), files (list of user-variable dictionaries), platform
+  kind 'conf': doc (FlowIR package dictionary), files (list of user-variable dictionaries), platform,
+               optional folders {name: 'link'|'copy'}: the package is then ONE FlowIR file plus a manifest
+               {name: <external directory>:<method>} (real directories holding FOLDER_FILES), so that the instance directory
+               gets top-level folders that are symbolic links / copies and the components' direct references into them
+               (e.g. shared/lookup.dat:copy) must still be read as references to FOLDERS after the reload
+               (Manifest.fromDirectory on the instance directory)
   kind 'loop': c05 (a case of harness/c05.py: DoWhile package), k further iterations before the reload
 """
 import copy
@@ -18,6 +23,7 @@ import tempfile
 import yaml
 
 ENV_KEYS_PREFIX = 'VK_'
+FOLDER_FILES = ['lookup.dat', 't.csv']
 
 
 def _canon(o):
@@ -38,11 +44,17 @@ def _sorted_components(doc):
     return doc
 
 
-def snapshot(exp):
+def snapshot(exp, folders=()):
     g = exp.experimentGraph
     gr = g.graph
     snap = {'nodes': sorted(gr.nodes), 'edges': sorted([a, b] for a, b in gr.edges), 'conf': {}, 'refs': {}, 'env': {},
             'raw': {}}
+    # the declared (manifest) top-level folders that the experiment knows as top-level folders of its root directory
+    try:
+        known = set(exp.configuration.top_level_folders)
+        snap['folders'] = sorted(f for f in folders if f in known)
+    except Exception as e:
+        snap['folders'] = ['error:' + type(e).__name__]
     for n in snap['nodes']:
         try:
             conf = g.configurationForNode(n)
@@ -88,10 +100,27 @@ def drive(case):
         os.makedirs(os.path.join(pkg, 'conf'))
         platform = None
         var_files = None
+        manifest = None
+        folders = sorted((case.get('folders') or {}).items())
         if case['kind'] == 'conf':
             platform = case['platform']
-            with open(os.path.join(pkg, 'conf', 'flowir_package.yaml'), 'w') as f:
-                F.yaml_dump(copy.deepcopy(case['doc']), f)
+            if folders:
+                # a package that is one FlowIR file + a manifest of external directories
+                shutil.rmtree(pkg)
+                manifest = {}
+                for name, method in folders:
+                    ext = os.path.join(tmp, 'ext_' + name)
+                    os.makedirs(ext)
+                    for fn in FOLDER_FILES:
+                        with open(os.path.join(ext, fn), 'w') as f:
+                            f.write('1\n')
+                    manifest[name] = '%s:%s' % (ext, method)
+                pkg = os.path.join(tmp, 'p.yaml')
+                with open(pkg, 'w') as f:
+                    F.yaml_dump(copy.deepcopy(case['doc']), f)
+            else:
+                with open(os.path.join(pkg, 'conf', 'flowir_package.yaml'), 'w') as f:
+                    F.yaml_dump(copy.deepcopy(case['doc']), f)
             if case.get('files'):
                 var_files = []
                 for i, uf in enumerate(case['files']):
@@ -108,7 +137,10 @@ def drive(case):
                 yaml.safe_dump(dw, f)
         os.chdir(tmp)
         try:
-            ep = experiment.model.storage.ExperimentPackage.packageFromLocation(pkg, platform=platform)
+            if manifest:
+                ep = experiment.model.storage.ExperimentPackage.packageFromLocation(pkg, manifest=manifest, platform=platform)
+            else:
+                ep = experiment.model.storage.ExperimentPackage.packageFromLocation(pkg, platform=platform)
             exp = experiment.model.data.Experiment.experimentFromPackage(
                 ep, location=tmp, platform=platform, variable_files=var_files)
         except Exception as e:
@@ -128,7 +160,9 @@ def drive(case):
                 return {'error': 'iterate:' + type(e).__name__, 'msg': str(e)[:1500]}
         if not os.path.exists(ipath):
             return {'error': 'create:no-instance-file'}
-        obs['live'] = snapshot(exp)
+        names = [n for n, _m in folders]
+        obs['live'] = snapshot(exp, names)
+        obs['folder_is_link'] = dict((n, os.path.islink(os.path.join(inst, n))) for n in names)
         bytes0 = open(ipath, 'rb').read()
         stored = _sorted_components(yaml.safe_load(bytes0))
         obs['stored'] = stored
@@ -144,7 +178,7 @@ def drive(case):
             except Exception as e:
                 reloads.append({'error': 'reload:' + type(e).__name__, 'msg': str(e)[:1500]})
                 break
-            reloads.append(snapshot(exp2))
+            reloads.append(snapshot(exp2, names))
             b = open(ipath, 'rb').read()
             same_bytes.append(b == bytes0)
             again.append(_sorted_components(yaml.safe_load(b)))
